@@ -70,6 +70,7 @@ func NewDir(conf config.Config, opts ...Opts) Store {
 	for _, opt := range opts {
 		opt(&sc)
 	}
+	stop := make(chan struct{})
 	cacheOpts := cache.Opts[string, *dirRepo]{
 		PruneFn: func(_ string, dr *dirRepo) error {
 			if !dr.uploads.IsEmpty() {
@@ -78,6 +79,13 @@ func NewDir(conf config.Config, opts ...Opts) Store {
 			// warning, this will block, ensure repos are always held open for a minimal time (this mostly affects the design of tests)
 			if !*dr.conf.Storage.ReadOnly {
 				if err := dr.gc(); err != nil {
+					select {
+					case <-stop:
+						// the store is closing, a failed GC (e.g. the repo does not exist on disk) must not keep the repo
+						// and the timer of the cache alive, they would continue to modify the directory after Close
+						return nil
+					default:
+					}
 					return err
 				}
 			}
@@ -93,7 +101,7 @@ func NewDir(conf config.Config, opts ...Opts) Store {
 		repos: cache.New[string, *dirRepo](cacheOpts),
 		log:   sc.log,
 		conf:  conf,
-		stop:  make(chan struct{}),
+		stop:  stop,
 	}
 	if d.log == nil {
 		d.log = slog.New(sloghandle.Discard)
